@@ -434,9 +434,36 @@ def _pykey(v):
     return (n, v.args)
 
 
+def resolved(t):
+    """The annotation after typing.get_type_hints: every string forward reference replaced by the class it names."""
+    if t.name == "TFwd":
+        return TNode(t.args[0])
+    if not isinstance(t, Con):
+        return t
+    return Con(t.name, *[_res_arg(a) for a in t.args])
+
+
+def _res_arg(a):
+    if isinstance(a, Con):
+        return resolved(a)
+    if isinstance(a, tuple):
+        return tuple(_res_arg(x) for x in a)
+    return a
+
+
 def mk_union(ms):
-    """mashumaro (pyoak's serialization mixin) cannot build a class whose annotation has a NewType as a member of a
+    """typing removes duplicate union members AFTER forward references are resolved (tuple["B", ...] | tuple[B, ...]
+    is tuple[B, ...]); that normalisation belongs to typing, not to pyoak, and is outside the model, so members that
+    coincide once resolved are not generated.
+    mashumaro (pyoak's serialization mixin) cannot build a class whose annotation has a NewType as a member of a
     union other than Optional[NewType]: such unions are not generated"""
+    seen, uniq = [], []
+    for m in ms:
+        r = resolved(m)
+        if r not in seen:
+            seen.append(r)
+            uniq.append(m)
+    ms = uniq
     non_none = [m for m in ms if m.name != "TNoneT"]
     if len(non_none) > 1:
         kept = [m for m in ms if m.name != "TNew"]
